@@ -170,6 +170,13 @@ class Ctx:
             h = hashlib.sha1(repr(key).encode()).digest()[:8]
             self._distinct.add(h)
 
+    def tick(self, label):
+        """phase timing (written to the evidence as coverage.phase_s)"""
+        now = time.time()
+        last = getattr(self, "_last_tick", self.t0)
+        self.notes.setdefault("phase_s", {})[label] = round(now - last, 1)
+        self._last_tick = now
+
     def validated(self, n=1):
         self.cov["traces_validated_against_impl"] += n
 
